@@ -216,3 +216,48 @@ def table_files():
 
 if __name__ == '__main__':
     print(table_files())
+
+
+def results_json():
+    """Concrete companion (sampling): the example ModelfitResults survive to_json / read_results: every field comes
+    back with the same labels and values (numbers to 12 significant digits: the writer prints 15; missing values may come back as NaN instead of None)."""
+    import dataclasses
+    import math
+    import numpy as np
+    import pandas as pd
+    from pharmpy.tools import load_example_modelfit_results, read_results
+    res = load_example_modelfit_results('pheno')
+    with tempfile.TemporaryDirectory() as d:
+        p = os.path.join(d, 'results.json')
+        with open(p, 'w') as f:
+            f.write(res.to_json())
+        back = read_results(p)
+    if type(back) is not type(res):
+        raise AssertionError(f'read_results gives a {type(back).__name__}')
+
+    def missing(x):
+        return x is None or (isinstance(x, float) and math.isnan(x))
+
+    def same(a, b):
+        if missing(a) or missing(b):
+            return missing(a) and missing(b)
+        if isinstance(a, pd.DataFrame):
+            if not isinstance(b, pd.DataFrame) or a.shape != b.shape or [str(c) for c in a.columns] != [str(c) for c in b.columns] \
+                    or [str(i) for i in a.index] != [str(i) for i in b.index]:
+                return False
+            return all(same(a[c], b[c]) for c in a.columns)
+        if isinstance(a, pd.Series):
+            if not isinstance(b, pd.Series) or [str(i) for i in a.index] != [str(i) for i in b.index]:
+                return False
+            return all(same(x, y) for x, y in zip(a.tolist(), b.tolist()))
+        if isinstance(a, (float, np.floating)) and isinstance(b, (int, float, np.floating, np.integer)):
+            return float(a) == float(b) or abs(float(a) - float(b)) <= 1e-12 * max(abs(float(a)), abs(float(b)))
+        if isinstance(a, (list, tuple)) and isinstance(b, (list, tuple)):
+            return len(a) == len(b) and all(same(x, y) for x, y in zip(a, b))
+        if hasattr(a, 'to_dict') and hasattr(b, 'to_dict') and not isinstance(a, (pd.DataFrame, pd.Series)):
+            return a.to_dict() == b.to_dict()
+        return a == b
+    bad = [f.name for f in dataclasses.fields(res) if not same(getattr(res, f.name), getattr(back, f.name))]
+    if bad:
+        raise AssertionError(f'fields changed by the JSON round trip: {bad}')
+    return True
